@@ -27,7 +27,10 @@ theorem absent_everywhere {s : State} {id : Id} (hi : Inv s) (hna : s.a.lookup i
     (∀ b, cnt s.rc.bwd b id = none) ∧ (∀ j, cnt s.rc.fwd j id = none) ∧
     s.g.fwd.lookup id = none ∧ s.g.bwd.lookup id = none ∧ s.p.fwd.lookup id = none ∧ s.p.bwd.lookup id = none ∧
     s.rc.fwd.lookup id = none ∧ s.rc.bwd.lookup id = none ∧ s.thg.lookup id = none ∧
-    (∀ v, s.uColour.lookup v ≠ some id) := by
+    (∀ v, s.uColour.lookup v ≠ some id) ∧
+    s.pe.lookup id = none ∧ (∀ j, id ∉ (s.pe.lookup j).getD []) ∧
+    s.mt.fwd.lookup id = none ∧ s.mt.bwd.lookup id = none ∧
+    (∀ j, id ∉ (s.mt.fwd.lookup j).getD []) ∧ (∀ j, id ∉ (s.mt.bwd.lookup j).getD []) := by
   have ha : s.aEx id = false := by simp [State.aEx, hna]
   have hb : s.bEx id = false := by simp [State.bEx, hnb]
   have hc : s.cEx id = false := by simp [State.cEx, hna]
@@ -41,7 +44,10 @@ theorem absent_everywhere {s : State} {id : Id} (hi : Inv s) (hna : s.a.lookup i
   have p2 : s.p.bwd.lookup id = none := none_of hb (fun l hl => hi.p.bwdDom id l hl)
   have r1 : s.rc.fwd.lookup id = none := none_of ha (fun l hl => hi.rc.fwdDom id l hl)
   have r2 : s.rc.bwd.lookup id = none := none_of hb (fun l hl => hi.rc.bwdDom id l hl)
-  refine ⟨?_, ?_, ?_, ?_, ?_, ?_, ?_, ?_, ?_, ?_, ?_, ?_, g1, g2, p1, p2, r1, r2, ?_, ?_⟩
+  have e1 : s.pe.lookup id = none := none_of ha (fun l hl => hi.pe.dom id l hl)
+  have m1 : s.mt.fwd.lookup id = none := none_of ha (fun l hl => hi.mt.fwdDom id l hl)
+  have m2 : s.mt.bwd.lookup id = none := none_of ha (fun l hl => hi.mt.bwdDom id l hl)
+  refine ⟨?_, ?_, ?_, ?_, ?_, ?_, ?_, ?_, ?_, ?_, ?_, ?_, g1, g2, p1, p2, r1, r2, ?_, ?_, e1, ?_, m1, m2, ?_, ?_⟩
   · intro v h; obtain ⟨_, e, he, _⟩ := (hi.uName v id).1 h; rw [hna] at he; cases he
   · intro v h; obtain ⟨_, e, he, _⟩ := (hi.uAlias v id).1 h; rw [hna] at he; cases he
   · intro v h; obtain ⟨_, e, he, _⟩ := (hi.uCode v id).1 h; rw [hna] at he; cases he
@@ -56,6 +62,9 @@ theorem absent_everywhere {s : State} {id : Id} (hi : Inv s) (hna : s.a.lookup i
   · intro j; rw [hi.rc.agree]; simp [cnt, r2]
   · exact none_of hb (fun l hl => hi.thgDom id l hl)
   · intro v h; obtain ⟨_, e, he, _⟩ := (hi.uColour v id).1 h; rw [hna] at he; cases he
+  · intro j h; have := (hi.pe.sym j id).1 h; simp [e1] at this
+  · intro j h; have := (hi.mt.sym j id).1 h; simp [m2] at this
+  · intro j h; have := (hi.mt.sym id j).2 h; simp [m1] at this
 
 /-- `fkAfter` writes back-reference buckets only -/
 theorem fkAfter_frame {ic : Bool} {old new : Bytes} {id : Id} {s s' : State} (hfk : fkAfter ic old new id s = .ok s') :
@@ -109,6 +118,22 @@ theorem createA_rc {s s' : State} {id : Id} {v : ValsA} (h : createA s id v = .o
         obtain ⟨un, ua, sr, _, _, _, hfk, _⟩ := afterUpdateA_ok h
         obtain ⟨_, _, _, _, _, g6, g7, _⟩ := (fkAfter_frame hfk).fields
         exact ⟨g7, g6⟩
+
+/-- `A.Create` does not touch the buckets of the self-link collections -/
+theorem createA_self {s s' : State} {id : Id} {v : ValsA} (h : createA s id v = .ok s') : s'.pe = s.pe ∧ s'.mt = s.mt := by
+  unfold createA at h
+  split at h
+  · cases h
+  · split at h
+    · cases h
+    · simp only [bind, Except.bind] at h
+      split at h
+      · cases h
+      · next s2 hsl =>
+        obtain ⟨g', _, rfl⟩ := setGroups_ok hsl
+        obtain ⟨un, ua, sr, _, _, _, hfk, _⟩ := afterUpdateA_ok h
+        obtain ⟨_, _, _, _, _, _, _, _, _, _, _, _, _, g14, g15⟩ := (fkAfter_frame hfk).fields
+        exact ⟨g14, g15⟩
 
 /-! ### acceptance of a (re-)creation -/
 
